@@ -8,6 +8,7 @@ static int thorough;
 
 static size_t MAXLEN = 300, MAXBS = 130;
 static const size_t big_bs[] = { 256, 512, 1024, 4096, 65536 };
+static const size_t bigger_bs[] = { 65535, 65537, 70000, 131071, 131072, 131073, 196609, (size_t) 1 << 20, ((size_t) 1 << 20) + 1, ((size_t) 1 << 24) + 3 };   /* past 16 bits, padded for real (a few lengths only) */
 static const size_t huge_bs[] = { (size_t) 1 << 31, (size_t) 1 << 32, ((size_t) 1 << 32) + 1, (size_t) 1 << 63,
                                   ((size_t) 1 << 63) + 1, SIZE_MAX - 1, SIZE_MAX,
                                   /* values whose low 16 / 32 bits are zero or tiny (a narrowed block size would be 0, 1, 2, 3 ...): k * 2^32 for k not a power of two, k * 2^16 */
@@ -78,6 +79,11 @@ static void do_len(long L)
                                 len > 3 ? 3 : 0, padded + 17, len / 2 };
             for (k = 0; k < 12; k++) for (p = 0; p < 2; p++) pad_case(len, b, caps[k], p, (int) ((len + k) % PAT_N));
         }
+    }
+    if (len < 6 || len % 41 == 0) for (bs = 0; bs < sizeof bigger_bs / sizeof bigger_bs[0]; bs++) {
+        size_t b = bigger_bs[bs], padded = len + (b - len % b);
+        size_t caps[6] = { padded, padded + 1, padded - 1, len, 0, padded + 4097 };
+        for (k = 0; k < 6; k++) pad_case(len, b, caps[k], (int) (k & 1), (int) ((len + k) % PAT_N));
     }
     for (k = 0; k < sizeof huge_bs / sizeof huge_bs[0]; k++) {
         snprintf(vf_ctx, sizeof vf_ctx, "sodium_pad/len=%zu/blocksize=%zu", len, huge_bs[k]);
